@@ -438,7 +438,7 @@ def plan(tier, seed):
     rows = list(table_rows())
     shards = [{"kind": "table", "lo": i, "hi": i + 8} for i in range(0, len(rows), 8)]
     shards += [{"kind": "table", "lo": i, "hi": i + 8, "postponed": True} for i in range(0, len(rows), 8)]
-    n = 150 if tier == "quick" else 3000
+    n = 600 if tier == "quick" else 3000
     for k in range(8):
         shards.append({"kind": "random", "seed": seed * 1000 + k, "n": n})
     shards.append({"kind": "hierarchies"})
